@@ -29,6 +29,8 @@ pub fn check(tier: Tier) -> Check {
         Part::new("C16/disciplines", json!({"depth": tier.pick(3, 4), "pairs": false, "faults": true}), 0, tier.pick(45, 600)),
         // an extra poll of the context task while a fragment of the next packet sits behind a big one
         Part::new("C16/after-big", json!({"sizes": [9000, 70_000]}), 0, 120),
+        // one big outbound packet under every write mode
+        Part::new("C16/bigwrite", json!({}), 0, 120),
         // a resumed session with 17 .. 300 packets to re-send: all of them go out on wakeups alone
         Part::new("C16/bulk", json!({}), 0, 120),
         // real time passes on a connection with a keep-alive (the one place where the wall clock could matter)
@@ -156,7 +158,50 @@ fn idle(name: String, params: Value) -> Scenario {
     })
 }
 
+/// One big outbound packet (70 000 .. 1 100 000 bytes) under every write mode, wake-only: however the
+/// client cuts a big packet up for writing, every Pending on the way is backed by a wakeup.
+fn bigwrite(name: String, params: Value) -> Scenario {
+    Box::new(move |chz, ex| {
+        let size = [70_000usize, 140_000, 1_100_000][chz.choose(3)];
+        let q = chz.choose(3) as u8;
+        let wmode = chz.choose(4);
+        let mut sys = Sys::new("C16", &name, chz);
+        sys.params = params.clone();
+        sys.bring_up(vec![]);
+        sys.set_write_mode(match wmode {
+            0 => crate::wire::WriteMode::All,
+            1 => crate::wire::WriteMode::PendingEach,
+            2 => crate::wire::WriteMode::HalfThenPending,
+            _ => crate::wire::WriteMode::All,
+        });
+        if wmode == 3 {
+            // (a transport that takes 4 KiB at a time would need ~270 writes for the biggest packet;
+            // the one-byte mode is left to the small packets)
+            sys.w.wire.borrow_mut().max_accept = Some(4096);
+        }
+        sys.apply(Ev::Start(OpSpec::Publish(PublishSpec::simple(q, "t/big", &vec![0x42u8; size]))));
+        sys.apply(Ev::Start(OpSpec::Ping));
+        for i in 0..2 {
+            while let Some(a) = sys.ack_for(i, 0, "") {
+                sys.apply(Ev::Deliver(a));
+                if sys.dead {
+                    break;
+                }
+            }
+        }
+        if !sys.dead && !sys.m.pings.is_empty() {
+            sys.apply(Ev::Deliver(SPacket::Pingresp));
+        }
+        sys.finish();
+        sys.events.truncate(6);
+        sys.report(ex, &["qos0-written", "qos12-written"]);
+    })
+}
+
 pub fn scenario(name: &str, params: &Value) -> Scenario {
+    if name == "C16/bigwrite" {
+        return bigwrite(name.to_string(), params.clone());
+    }
     if name == "C16/bulk" {
         return super::c17::bulk("C16", name.to_string(), params.clone());
     }
